@@ -717,6 +717,8 @@ def run(ctx):
     r11de(ctx)
     from .round12 import r03n
     r03n(ctx)
+    from .round12 import r03o
+    r03o(ctx)
 
 
 from ..selftest import Seed, unparse_seed  # noqa: E402
